@@ -520,7 +520,7 @@ func (s *stepper) mutate(class, v string, key []byte, f [4]string, createdAt int
 		}
 		return enc(raw[:n-k]), fmt.Sprintf("%d trailing bytes dropped", k)
 	case "trunc_short":
-		k := s.rng.Intn(49)
+		k := 1 + s.rng.Intn(48)
 		return enc(raw[:k]), fmt.Sprintf("only the first %d bytes kept", k)
 	case "trunc_field":
 		room := n - 32 - 9 // payload bytes after version and created_at (>= 8)
